@@ -429,6 +429,12 @@ func (op *HOp) render() string {
 		for i := range names {
 			names[i] = fmt.Sprintf("mb%d", i)
 		}
+		if op.Key != "" {
+			// the last bound name is spelled like a variable of the history: the
+			// variable is shadowed inside the case only and is what it was afterwards
+			names[len(names)-1] = op.Key
+			return fmt.Sprintf("for (ml in [1, 2]) { match (%s) { [%s] => { %s } } }", op.T.String(), strings.Join(names, ", "), op.Fn)
+		}
 		return fmt.Sprintf("for (ml in [1, 2]) { match (%s) { [%s] => { %s } } }\n%s = \"later\"", op.T.String(), strings.Join(names, ", "), op.Fn, names[len(names)-1])
 	case "ret-member-assign":
 		// assignment to a member of a missing member that a function handed back:
@@ -1687,6 +1693,9 @@ func genHeapCase(t *Tape, maxOps int) *HeapCase {
 				n = len(v.Arr.Items)
 			}
 			op = HOp{Kind: "match-early", T: p, Idx: n, Fn: []string{"continue", "break"}[t.Draw(2)]}
+			if t.Chance(1, 2) {
+				op.Key = c.Vars[t.Draw(nv)]
+			}
 			if t.Chance(1, 2) {
 				op = HOp{Kind: "match-assign", T: p, Idx: n, Num: float64(t.Draw(4)), Lit: heapScalarLits[t.Draw(len(heapScalarLits))], Op: []string{"=", "++"}[t.Draw(2)]}
 			}
